@@ -9,29 +9,54 @@ set_option linter.unusedSimpArgs false
 namespace Stef.Api
 open Stef Stef.Spec Stef.SpecEnc
 
-/-- a node that is sound whatever the reader holds (a primitive, a dictionary struct, anything just
-    marked in full) -/
-def AnySnd (C : Ctx) (a : AS) : Prop := ∀ R, Snd C a R
+/-- a node that is sound whatever the reader holds, in either mode (a primitive, a shared dictionary
+    struct, an owned dictionary struct with up-closed marks, anything just marked in full) -/
+def AnySnd (C : Ctx) (a : AS) : Prop := ∀ ℓ R, SndG C ℓ a R
 
-theorem anySnd_prim (C : Ctx) (v : St) : AnySnd C (.prim v) := fun _ => by simp [Snd]
+theorem anySnd_prim (C : Ctx) (v : St) : AnySnd C (.prim v) := fun _ _ => by simp [SndG]
 
-theorem anySnd_setModRec (C : Ctx) (a : AS) : AnySnd C (setModRec a) := snd_setModRec_any C a
+theorem anySnd_setModRec (C : Ctx) (a : AS) : AnySnd C (setModRec a) := fun ℓ R => snd_setModRec_any C ℓ a R
 
 theorem anySnd_primOnly (C : Ctx) (a : AS) : AnySnd C (primOnly a) := by
-  cases a <;> simp [primOnly, AnySnd, Snd]
-
-theorem anySnd_dict (C : Ctx) (a : AS) (h : C.isDictNode a = true) : AnySnd C a := by
-  cases a with
-  | struct n m p fr fs => intro R; simp only [Snd]; exact Or.inl (by simpa [Ctx.isDictNode] using h)
-  | _ => simp [Ctx.isDictNode] at h
+  cases a <;> simp [primOnly, AnySnd, SndG]
 
 theorem isDictNode_of_canBeShared (C : Ctx) (a : AS) (h : C.canBeShared a = true) : C.isDictNode a = true := by
   cases a with
   | struct n m p fr fs => simp [Ctx.canBeShared] at h; simpa [Ctx.isDictNode] using h.2
   | _ => simp [Ctx.canBeShared] at h
 
-/-- the frozen empty value of a dictionary struct type is a dictionary struct -/
-theorem anySnd_emptyOf (C : Ctx) (e : Ty) (he : C.isDictTy e = true) : AnySnd C (C.emptyOf e) := by
+/-- a shared (frozen) dictionary struct: never modified, its marks are never read -/
+theorem anySnd_shared (C : Ctx) (a : AS) (h : C.canBeShared a = true) : AnySnd C a := by
+  cases a with
+  | struct n m p fr fs =>
+    intro ℓ R
+    simp only [Ctx.canBeShared, Bool.and_eq_true] at h
+    simp only [SndG]
+    exact Or.inl ⟨h.2, Or.inl h.1⟩
+  | _ => simp [Ctx.canBeShared] at h
+
+/-- a dictionary struct with up-closed marks is sound whatever the reader holds (it is written by value) -/
+theorem anySnd_dict (C : Ctx) (a : AS) (h : C.isDictNode a = true) (hu : UC C a) : AnySnd C a := by
+  cases a with
+  | struct n m p fr fs =>
+    intro ℓ R
+    simp only [Ctx.isDictNode] at h
+    simp only [UC, SndG] at hu ⊢
+    rcases hu with hu | ⟨hd, _⟩
+    · exact Or.inl hu
+    · rw [h] at hd; simp at hd
+  | _ => simp [Ctx.isDictNode] at h
+
+theorem quiet_shared (C : Ctx) (a : AS) (h : C.canBeShared a = true) : Quiet C a := by
+  cases a with
+  | struct n m p fr fs =>
+    simp only [Ctx.canBeShared, Bool.and_eq_true] at h
+    simp only [Quiet]
+    exact Or.inl ⟨h.2, h.1⟩
+  | _ => simp [Ctx.canBeShared] at h
+
+/-- the frozen empty value of a dictionary struct type is a shared dictionary struct -/
+theorem canBeShared_emptyOf (C : Ctx) (e : Ty) (he : C.isDictTy e = true) : C.canBeShared (C.emptyOf e) = true := by
   cases e with
   | prim p d => simp [Ctx.isDictTy] at he
   | arr e => simp [Ctx.isDictTy] at he
@@ -44,65 +69,68 @@ theorem anySnd_emptyOf (C : Ctx) (e : Ty) (he : C.isDictTy e = true) : AnySnd C 
     split at hd
     · rename_i dn fs hfind
       rw [hfind]
-      intro R
-      simp only [freezeAS, Snd]
-      exact Or.inl he
+      simp only [freezeAS, Ctx.canBeShared, he, Bool.and_self]
     · simp at hd
+
+theorem anySnd_emptyOf (C : Ctx) (e : Ty) (he : C.isDictTy e = true) : AnySnd C (C.emptyOf e) :=
+  anySnd_shared C _ (canBeShared_emptyOf C e he)
 
 /-! ## list facts -/
 
-theorem sndElems_all (C : Ctx) : ∀ (as : List AS) (rs : List St), (∀ x ∈ as, AnySnd C x) → SndElems C as rs
-  | [], _, _ => by simp [SndElems]
+theorem sndElems_all (C : Ctx) (ℓ : Bool) : ∀ (as : List AS) (rs : List St), (∀ x ∈ as, AnySnd C x) → SndElemsG C ℓ as rs
+  | [], _, _ => by simp [SndElemsG]
   | a :: as, rs, h => by
-    simp only [SndElems]
-    exact ⟨h a (by simp) _, sndElems_all C as rs.tail (fun x hx => h x (by simp [hx]))⟩
+    simp only [SndElemsG]
+    exact ⟨h a (by simp) _ _, sndElems_all C ℓ as rs.tail (fun x hx => h x (by simp [hx]))⟩
 
-theorem sndElems_append (C : Ctx) : ∀ (as bs : List AS) (rs : List St), SndElems C as rs →
-    (∀ x ∈ bs, AnySnd C x) → SndElems C (as ++ bs) rs
-  | [], bs, rs, _, hb => by simpa using sndElems_all C bs rs hb
+theorem sndElems_append (C : Ctx) (ℓ : Bool) : ∀ (as bs : List AS) (rs : List St), SndElemsG C ℓ as rs →
+    (∀ x ∈ bs, AnySnd C x) → SndElemsG C ℓ (as ++ bs) rs
+  | [], bs, rs, _, hb => by simpa using sndElems_all C ℓ bs rs hb
   | a :: as, bs, rs, h, hb => by
-    simp only [List.cons_append, SndElems] at h ⊢
-    exact ⟨h.1, sndElems_append C as bs rs.tail h.2 hb⟩
+    simp only [List.cons_append, SndElemsG] at h ⊢
+    exact ⟨h.1, sndElems_append C ℓ as bs rs.tail h.2 hb⟩
 
-theorem sndElems_take (C : Ctx) : ∀ (n : Nat) (as : List AS) (rs : List St), SndElems C as rs →
-    SndElems C (as.take n) rs
-  | 0, _, _, _ => by simp [SndElems]
-  | _ + 1, [], _, _ => by simp [SndElems]
+theorem sndElems_take (C : Ctx) (ℓ : Bool) : ∀ (n : Nat) (as : List AS) (rs : List St), SndElemsG C ℓ as rs →
+    SndElemsG C ℓ (as.take n) rs
+  | 0, _, _, _ => by simp [SndElemsG]
+  | _ + 1, [], _, _ => by simp [SndElemsG]
   | n + 1, a :: as, rs, h => by
-    simp only [List.take_succ_cons, SndElems] at h ⊢
-    exact ⟨h.1, sndElems_take C n as rs.tail h.2⟩
+    simp only [List.take_succ_cons, SndElemsG] at h ⊢
+    exact ⟨h.1, sndElems_take C ℓ n as rs.tail h.2⟩
 
-theorem sndPairs_all (C : Ctx) : ∀ (ps : List (AS × AS)) (rs : List (St × St)),
-    (∀ x ∈ ps, AnySnd C x.1 ∧ AnySnd C x.2) → SndPairs C ps rs
-  | [], _, _ => by simp [SndPairs]
+theorem sndPairs_all (C : Ctx) (ℓ : Bool) : ∀ (ps : List (AS × AS)) (rs : List (St × St)),
+    (∀ x ∈ ps, AnySnd C x.1 ∧ AnySnd C x.2) → SndPairsG C ℓ ps rs
+  | [], _, _ => by simp [SndPairsG]
   | (a, b) :: ps, rs, h => by
-    simp only [SndPairs]
+    simp only [SndPairsG]
     have h0 := h (a, b) (by simp)
-    exact ⟨h0.1 _, h0.2 _, sndPairs_all C ps rs.tail (fun x hx => h x (by simp [hx]))⟩
+    exact ⟨h0.1 _ _, h0.2 _ _, sndPairs_all C ℓ ps rs.tail (fun x hx => h x (by simp [hx]))⟩
 
-theorem sndPairs_append (C : Ctx) : ∀ (ps qs : List (AS × AS)) (rs : List (St × St)), SndPairs C ps rs →
-    (∀ x ∈ qs, AnySnd C x.1 ∧ AnySnd C x.2) → SndPairs C (ps ++ qs) rs
-  | [], qs, rs, _, hb => by simpa using sndPairs_all C qs rs hb
+theorem sndPairs_append (C : Ctx) (ℓ : Bool) : ∀ (ps qs : List (AS × AS)) (rs : List (St × St)), SndPairsG C ℓ ps rs →
+    (∀ x ∈ qs, AnySnd C x.1 ∧ AnySnd C x.2) → SndPairsG C ℓ (ps ++ qs) rs
+  | [], qs, rs, _, hb => by simpa using sndPairs_all C ℓ qs rs hb
   | (a, b) :: ps, qs, rs, h, hb => by
-    simp only [List.cons_append, SndPairs] at h ⊢
-    exact ⟨h.1, h.2.1, sndPairs_append C ps qs rs.tail h.2.2 hb⟩
+    simp only [List.cons_append, SndPairsG] at h ⊢
+    exact ⟨h.1, h.2.1, sndPairs_append C ℓ ps qs rs.tail h.2.2 hb⟩
 
-theorem sndPairs_take (C : Ctx) : ∀ (n : Nat) (ps : List (AS × AS)) (rs : List (St × St)), SndPairs C ps rs →
-    SndPairs C (ps.take n) rs
-  | 0, _, _, _ => by simp [SndPairs]
-  | _ + 1, [], _, _ => by simp [SndPairs]
+theorem sndPairs_take (C : Ctx) (ℓ : Bool) : ∀ (n : Nat) (ps : List (AS × AS)) (rs : List (St × St)), SndPairsG C ℓ ps rs →
+    SndPairsG C ℓ (ps.take n) rs
+  | 0, _, _, _ => by simp [SndPairsG]
+  | _ + 1, [], _, _ => by simp [SndPairsG]
   | n + 1, (a, b) :: ps, rs, h => by
-    simp only [List.take_succ_cons, SndPairs] at h ⊢
-    exact ⟨h.1, h.2.1, sndPairs_take C n ps rs.tail h.2.2⟩
+    simp only [List.take_succ_cons, SndPairsG] at h ⊢
+    exact ⟨h.1, h.2.1, sndPairs_take C ℓ n ps rs.tail h.2.2⟩
 
 /-- whatever form a multimap is in, its pairs are sound in the full form -/
-theorem sndPairs_of_snd_mmap (C : Ctx) (n : String) (ps hid : List (AS × AS)) (k v : Nat) (ml : Bool) (R : Option St)
-    (h : Snd C (.mmap n ps hid k v ml) R) : SndPairs C ps (optPairs R) := by
-  simp only [Snd] at h
+theorem sndPairs_of_snd_mmap (C : Ctx) (ℓ : Bool) (n : String) (ps hid : List (AS × AS)) (k v : Nat) (ml : Bool) (R : Option St)
+    (h : SndG C ℓ (.mmap n ps hid k v ml) R) : SndPairsG C ℓ ps (optPairs R) := by
+  simp only [SndG] at h
   rcases h with h | h | h
-  · subst h; simp [SndPairs]
+  · subst h; simp [SndPairsG]
   · exact h.2
-  · exact sndPairs_of_sndVals C v 0 ps _ h.2.2.2.2.2
+  · obtain ⟨hℓ, _, _, _, _, _, h⟩ := h
+    subst hℓ
+    exact sndPairs_of_sndVals C v 0 ps _ h
 
 /-! ## arrays -/
 
@@ -126,14 +154,14 @@ theorem arrEnsureLen_pres (C : Ctx) (e : Ty) (es hid : List AS) (n : Nat) :
   unfold arrEnsureLen arrEnsureLenRaw
   by_cases hgt : n > es.length
   · simp only [hgt, if_true]
-    refine ⟨fun R h => ?_, fun _ hno => by simp at hno, rfl⟩
-    simp only [Snd] at h ⊢
-    exact sndElems_append C es _ _ h (expose_map_anySnd C _ _ hid _ hg)
+    refine ⟨fun ℓ R h => ?_, fun _ hno => by simp at hno, rfl⟩
+    simp only [SndG] at h ⊢
+    exact sndElems_append C ℓ es _ _ h (expose_map_anySnd C _ _ hid _ hg)
   · by_cases hlt : es.length > n
     · simp only [hgt, hlt, if_true, if_false, List.map_nil, List.append_nil]
-      refine ⟨fun R h => ?_, fun _ hno => by simp at hno, rfl⟩
-      simp only [Snd] at h ⊢
-      exact sndElems_take C n es _ h
+      refine ⟨fun ℓ R h => ?_, fun _ hno => by simp at hno, rfl⟩
+      simp only [SndG] at h ⊢
+      exact sndElems_take C ℓ n es _ h
     · simp only [hgt, hlt, if_false, List.map_nil, List.append_nil]
       exact Pres.refl C _ _
 
@@ -173,13 +201,13 @@ theorem mmEnsureLen_pres (C : Ctx) (n : String) (ps hid : List (AS × AS)) (k v 
   rcases mmEnsureLen_cases C n ps hid k v ml nl with e | ⟨ps', hid', k', v', e, hps⟩
   · rw [e]; exact Pres.refl C _ _
   · rw [e]
-    refine ⟨fun R h => ?_, fun _ hno => by simp at hno, rfl⟩
-    have hp := sndPairs_of_snd_mmap C n ps hid k v ml R h
-    simp only [Snd]
-    refine Or.inr (Or.inl ⟨Or.inl trivial, ?_⟩)
+    refine ⟨fun ℓ R h => ?_, fun _ hno => by simp at hno, rfl⟩
+    have hp := sndPairs_of_snd_mmap C ℓ n ps hid k v ml R h
+    simp only [SndG]
+    refine Or.inr (Or.inl ⟨Or.inr (Or.inl trivial), ?_⟩)
     rcases hps with ⟨qs, rfl, hq⟩ | rfl
-    · exact sndPairs_append C ps qs _ hp hq
-    · exact sndPairs_take C nl ps _ hp
+    · exact sndPairs_append C ℓ ps qs _ hp hq
+    · exact sndPairs_take C ℓ nl ps _ hp
 
 /-! ## struct fields: a call that marks field `i` -/
 
@@ -198,47 +226,59 @@ theorem fdOpt_cons (fd : Field) (fds : List Field) : fdOpt (fd :: fds) = fd.opti
 
 theorem fdOpt_nil : fdOpt [] = false := by simp [fdOpt]
 
-theorem sndFields_congr (C : Ctx) : ∀ (fds : List Field) (idx oi m m' p p' : Nat) (known : Bool) (rp : Nat)
+theorem sndFields_congr (C : Ctx) (ℓ : Bool) : ∀ (fds : List Field) (idx oi m m' p p' : Nat) (known : Bool) (rp : Nat)
     (as : List AS) (rfs : List St), (∀ j, idx ≤ j → m'.testBit j = m.testBit j) →
     (∀ o, oi ≤ o → p'.testBit o = p.testBit o) →
-    SndFields C fds idx oi m p known rp as rfs → SndFields C fds idx oi m' p' known rp as rfs
-  | _, _, _, _, _, _, _, _, _, [], _, _, _, _ => by simp [SndFields]
+    SndFieldsG C ℓ fds idx oi m p known rp as rfs → SndFieldsG C ℓ fds idx oi m' p' known rp as rfs
+  | _, _, _, _, _, _, _, _, _, [], _, _, _, _ => by simp [SndFieldsG]
   | fds, idx, oi, m, m', p, p', known, rp, a :: as, rfs, hm, hp, h => by
-    simp only [SndFields] at h ⊢
+    simp only [SndFieldsG] at h ⊢
     rw [hm idx (Nat.le_refl _), hp oi (Nat.le_refl _)]
-    exact ⟨h.1, sndFields_congr C fds.tail (idx + 1) _ m m' p p' known rp as rfs.tail
-      (fun j hj => hm j (by omega)) (fun o ho => hp o (by split at ho <;> omega)) h.2⟩
+    exact ⟨h.1, h.2.1, sndFields_congr C ℓ fds.tail (idx + 1) _ m m' p p' known rp as rfs.tail
+      (fun j hj => hm j (by omega)) (fun o ho => hp o (by split at ho <;> omega)) h.2.2⟩
 
-theorem sndFields_mark (C : Ctx) (c c' : AS) (m m' p p' : Nat) (known : Bool) (rp : Nat) :
+/-- whatever state a field is in (marked, in sync, absent), its value has up-closed marks -/
+theorem sndFields_uc_head (C : Ctx) (ℓ : Bool) (fds : List Field) (idx oi m p : Nat) (known : Bool) (rp : Nat)
+    (a : AS) (as : List AS) (rfs : List St) (h : SndFieldsG C ℓ fds idx oi m p known rp (a :: as) rfs) : UC C a := by
+  simp only [SndFieldsG] at h
+  by_cases hp : (!fdOpt fds || p.testBit oi) = true
+  · by_cases hm : m.testBit idx = true
+    · exact snd_lax C ℓ a _ _ ((h.1 hp).1 hm)
+    · exact ((h.1 hp).2 (by simpa using hm)).2.2
+  · exact h.2.1 (by simpa using hp)
+
+theorem sndFields_mark (C : Ctx) (ℓ : Bool) (c c' : AS) (m m' p p' : Nat) (known : Bool) (rp : Nat) :
     ∀ (fds : List Field) (idx oi : Nat) (as : List AS) (rfs : List St) (i : Nat), as[i]? = some c →
     (∀ j, j ≠ idx + i → m'.testBit j = m.testBit j) → m'.testBit (idx + i) = true →
     (∀ o, (o ≠ oi + optIndex fds i ∨ fdOpt (fds.drop i) = false) → p'.testBit o = p.testBit o) →
     ((!fdOpt (fds.drop i) || p'.testBit (oi + optIndex fds i)) = true → AnySnd C c') →
-    SndFields C fds idx oi m p known rp as rfs → SndFields C fds idx oi m' p' known rp (as.set i c') rfs
-  | _, _, _, [], _, _, h, _, _, _, _, _ => by simp at h
-  | fds, idx, oi, a :: as, rfs, 0, hi, hm, hm1, hp, hc, h => by
+    (UC C c → UC C c') →
+    SndFieldsG C ℓ fds idx oi m p known rp as rfs → SndFieldsG C ℓ fds idx oi m' p' known rp (as.set i c') rfs
+  | _, _, _, [], _, _, h, _, _, _, _, _, _ => by simp at h
+  | fds, idx, oi, a :: as, rfs, 0, hi, hm, hm1, hp, hc, hc2, h => by
     simp only [List.getElem?_cons_zero, Option.some.injEq] at hi
     subst hi
-    simp only [List.set_cons_zero, SndFields, Nat.add_zero, optIndex_zero, List.drop_zero] at h hm hm1 hp hc ⊢
-    refine ⟨fun hpres => ⟨fun _ => hc hpres _, fun h0 => by rw [hm1] at h0; simp at h0⟩, ?_⟩
-    refine sndFields_congr C fds.tail (idx + 1) _ m m' p p' known rp as rfs.tail
-      (fun j hj => hm j (by omega)) (fun o ho => ?_) h.2
+    have huc := sndFields_uc_head C ℓ fds idx oi m p known rp a as rfs h
+    simp only [List.set_cons_zero, SndFieldsG, Nat.add_zero, optIndex_zero, List.drop_zero] at h hm hm1 hp hc ⊢
+    refine ⟨fun hpres => ⟨fun _ => hc hpres _ _, fun h0 => by rw [hm1] at h0; simp at h0⟩, fun _ => hc2 huc, ?_⟩
+    refine sndFields_congr C ℓ fds.tail (idx + 1) _ m m' p p' known rp as rfs.tail
+      (fun j hj => hm j (by omega)) (fun o ho => ?_) h.2.2
     by_cases hopt : fdOpt fds = true
     · simp only [hopt, if_true] at ho
       exact hp o (Or.inl (by omega))
     · exact hp o (Or.inr (by simpa using hopt))
-  | fds, idx, oi, a :: as, rfs, i + 1, hi, hm, hm1, hp, hc, h => by
+  | fds, idx, oi, a :: as, rfs, i + 1, hi, hm, hm1, hp, hc, hc2, h => by
     simp only [List.getElem?_cons_succ] at hi
-    simp only [List.set_cons_succ, SndFields] at h ⊢
+    simp only [List.set_cons_succ, SndFieldsG] at h ⊢
     have hmi : m'.testBit idx = m.testBit idx := hm idx (by omega)
     cases fds with
     | nil =>
       simp only [fdOpt_nil, List.tail_nil, Bool.false_eq_true, if_false, List.drop_nil, optIndex_nil, Nat.add_zero] at h hp hc ⊢
       rw [hmi]
-      refine ⟨h.1, ?_⟩
-      have := sndFields_mark C c c' m m' p p' known rp [] (idx + 1) oi as rfs.tail i hi
+      refine ⟨h.1, h.2.1, ?_⟩
+      have := sndFields_mark C ℓ c c' m m' p p' known rp [] (idx + 1) oi as rfs.tail i hi
         (fun j hj => hm j (by omega)) (by rwa [show idx + 1 + i = idx + (i + 1) by omega])
-        (by simpa [optIndex_nil, fdOpt_nil] using hp) (by simpa [optIndex_nil, fdOpt_nil] using hc) h.2
+        (by simpa [optIndex_nil, fdOpt_nil] using hp) (by simpa [optIndex_nil, fdOpt_nil] using hc) hc2 h.2.2
       exact this
     | cons fd fds =>
       simp only [fdOpt_cons, List.tail_cons, List.drop_succ_cons, optIndex_succ] at h hp hc ⊢
@@ -246,41 +286,54 @@ theorem sndFields_mark (C : Ctx) (c c' : AS) (m m' p p' : Nat) (known : Bool) (r
       by_cases hopt : fd.optional = true
       · simp only [hopt, if_true] at h hp hc ⊢
         rw [hp oi (Or.inl (by omega))]
-        refine ⟨h.1, ?_⟩
-        exact sndFields_mark C c c' m m' p p' known rp fds (idx + 1) (oi + 1) as rfs.tail i hi
+        refine ⟨h.1, h.2.1, ?_⟩
+        exact sndFields_mark C ℓ c c' m m' p p' known rp fds (idx + 1) (oi + 1) as rfs.tail i hi
           (fun j hj => hm j (by omega)) (by rwa [show idx + 1 + i = idx + (i + 1) by omega])
           (fun o ho => hp o (by rcases ho with ho | ho; exact Or.inl (by omega); exact Or.inr ho))
-          (fun hpres => hc (by rwa [show oi + (1 + optIndex fds i) = oi + 1 + optIndex fds i by omega])) h.2
+          (fun hpres => hc (by rwa [show oi + (1 + optIndex fds i) = oi + 1 + optIndex fds i by omega])) hc2 h.2.2
       · simp only [hopt, if_false, Bool.false_eq_true, Nat.zero_add] at h hp hc ⊢
-        refine ⟨by simpa [hopt] using h.1, ?_⟩
-        exact sndFields_mark C c c' m m' p p' known rp fds (idx + 1) oi as rfs.tail i hi
-          (fun j hj => hm j (by omega)) (by rwa [show idx + 1 + i = idx + (i + 1) by omega]) hp hc h.2
+        refine ⟨by simpa [hopt] using h.1, by simp [hopt], ?_⟩
+        exact sndFields_mark C ℓ c c' m m' p p' known rp fds (idx + 1) oi as rfs.tail i hi
+          (fun j hj => hm j (by omega)) (by rwa [show idx + 1 + i = idx + (i + 1) by omega]) hp hc hc2 h.2.2
 
 theorem fdOpt_drop (fds : List Field) (i : Nat) (fd : Field) (h : fds[i]? = some fd) : fdOpt (fds.drop i) = fd.optional := by
   unfold fdOpt
   rw [List.head?_drop, h]
   rfl
 
-/-- a call on a struct (not a dictionary struct) that marks field `i`, possibly changes its presence
-    bit and replaces its value by one that is sound whatever the reader holds -/
+/-- a call on a struct (not a shared one) that marks field `i`, possibly changes its presence bit and
+    replaces its value by one that is sound whatever the reader holds (if the field is present
+    afterwards) and whose marks are up-closed if those of the old value were -/
 theorem pres_struct_mark (C : Ctx) (n : String) (m p p' : Nat) (fr : Bool) (fs : List AS) (i : Nat) (c c' : AS)
-    (hc : fs[i]? = some c) (hnd : C.isDictName n = false)
+    (hc : fs[i]? = some c) (hns : ¬ (C.isDictName n = true ∧ fr = true))
     (hp : ∀ o, (o ≠ optIndex (fieldsOf C n) i ∨ fdOpt ((fieldsOf C n).drop i) = false) → p'.testBit o = p.testBit o)
-    (hc' : (!fdOpt ((fieldsOf C n).drop i) || p'.testBit (optIndex (fieldsOf C n) i)) = true → AnySnd C c') :
+    (hc' : (!fdOpt ((fieldsOf C n).drop i) || p'.testBit (optIndex (fieldsOf C n) i)) = true → AnySnd C c')
+    (hc2 : UC C c → UC C c') :
     Pres C (.struct n m p fr fs) (.struct n (structRecv m i .direct).1 p' fr (fs.set i c')) (structRecv m i .direct).2 := by
-  refine ⟨fun R h => ?_, fun hq hno => ?_, rfl⟩
-  · simp only [Snd] at h ⊢
-    rcases h with h | h
-    · exact Or.inl h
-    · refine Or.inr (sndFields_mark C c c' m _ p p' R.isSome (optPres R) (fieldsOf C n) 0 0 fs (optFields R) i hc
-        (fun j hj => structRecv_testBit m i .direct j (by omega)) ?_ (by simpa using hp) (by simpa using hc') h)
+  refine ⟨fun ℓ R h => ?_, fun hq hno => ?_, rfl⟩
+  · simp only [SndG] at h ⊢
+    have hset : (structRecv m i .direct).1.testBit (0 + i) = true := by
       rw [Nat.zero_add]
       exact structRecv_set m i .direct (by simp)
-  · simp only [Quiet, hnd, Bool.false_eq_true, false_or] at hq
+    rcases h with ⟨hd, hfr | h⟩ | ⟨hd, h⟩
+    · exact absurd ⟨hd, hfr⟩ hns
+    · exact Or.inl ⟨hd, Or.inr (sndFields_mark C true c c' m _ p p' false 0 (fieldsOf C n) 0 0 fs [] i hc
+        (fun j hj => structRecv_testBit m i .direct j (by omega)) hset (by simpa using hp) (by simpa using hc') hc2 h)⟩
+    · exact Or.inr ⟨hd, sndFields_mark C ℓ c c' m _ p p' R.isSome (optPres R) (fieldsOf C n) 0 0 fs (optFields R) i hc
+        (fun j hj => structRecv_testBit m i .direct j (by omega)) hset (by simpa using hp) (by simpa using hc') hc2 h⟩
+  · simp only [Quiet] at hq
+    rcases hq with hq | hq
+    · exact absurd hq hns
     obtain ⟨hm, _⟩ := hq
     subst hm
     have := structRecv_up_no 0 i .direct hno (Nat.zero_testBit i)
     simp at this
+
+theorem not_shared_of_not_dict (C : Ctx) (n : String) (fr : Bool) (h : C.isDictName n = false) :
+    ¬ (C.isDictName n = true ∧ fr = true) := by
+  rw [h]; simp
+
+theorem uc_prim (C : Ctx) (v : St) : UC C (.prim v) := by simp [UC, SndG]
 
 theorem or_two_pow_testBit (p oi o : Nat) (h : o ≠ oi) : (p ||| 2 ^ oi).testBit o = p.testBit o := by
   simp [Nat.testBit_or, Nat.testBit_two_pow, Ne.symm h]
@@ -300,7 +353,8 @@ theorem setPrim_pres (C : Ctx) (i : Nat) (v : St) (w w' : AS) (u : Up) (hnd : C.
       · simp only [Except.ok.injEq, Prod.mk.injEq] at h
         obtain ⟨rfl, rfl⟩ := h
         have hopt := fdOpt_drop _ i fd hfd
-        refine pres_struct_mark C n m p _ fr fs i (.prim cur) (.prim v) hfs hnd (fun o ho => ?_) (fun _ => anySnd_prim C v)
+        refine pres_struct_mark C n m p _ fr fs i (.prim cur) (.prim v) hfs (not_shared_of_not_dict C n fr hnd) (fun o ho => ?_)
+          (fun _ => anySnd_prim C v) (fun _ => uc_prim C v)
         by_cases hfo : fd.optional = true
         · simp only [hfo, if_true, optIdx]
           rcases ho with ho | ho
@@ -341,7 +395,8 @@ theorem unset_pres (C : Ctx) (i : Nat) (w w' : AS) (u : Up) (hnd : C.isDictNode 
           obtain ⟨rfl, rfl⟩ := h
           have hopt := fdOpt_drop _ i fd hfd
           simp only [optIdx] at hbit ⊢
-          have := pres_struct_mark C n m p (p ^^^ 2 ^ optIndex (fieldsOf C n) i) fr fs i c c hfs hnd (fun o ho => ?_) (fun hpres => ?_)
+          have := pres_struct_mark C n m p (p ^^^ 2 ^ optIndex (fieldsOf C n) i) fr fs i c c hfs (not_shared_of_not_dict C n fr hnd)
+            (fun o ho => ?_) (fun hpres => ?_) (fun h => h)
           · rwa [set_self fs i c hfs] at this
           · rcases ho with ho | ho
             · exact xor_two_pow_testBit p _ o ho
@@ -373,7 +428,8 @@ theorem setPresent_pres (C : Ctx) (i : Nat) (w w' : AS) (u : Up) (hnd : C.isDict
         · simp only [Except.ok.injEq, Prod.mk.injEq] at h
           obtain ⟨rfl, rfl⟩ := h
           have hopt := fdOpt_drop _ i fd hfd
-          refine pres_struct_mark C n m p _ fr fs i cur _ hfs hnd (fun o ho => ?_) (fun _ => anySnd_setModRec C _)
+          refine pres_struct_mark C n m p _ fr fs i cur _ hfs (not_shared_of_not_dict C n fr hnd) (fun o ho => ?_)
+            (fun _ => anySnd_setModRec C _) (fun _ => anySnd_setModRec C _ true none)
           simp only [optIdx]
           rcases ho with ho | ho
           · exact or_two_pow_testBit p _ o ho
@@ -392,83 +448,29 @@ theorem structRecv_again (m i : Nat) (u : Up) (h : m.testBit i = true) : structR
 
 theorem join_no_no (u : Up) : (u.join .no).join .no = u := by cases u <;> rfl
 
-theorem setObj_pres (C : Ctx) (i : Nat) (v : AS) (w w' : AS) (u : Up) (hnd : C.isDictNode w = false)
-    (h : applyOp C (.setObj i v) w = .ok (w', u)) : Pres C w w' u := by
-  cases w with
-  | struct n m p fr fs =>
-    simp only [Ctx.isDictNode] at hnd
-    simp only [applyOp] at h
-    split at h
-    · rename_i fd cur hfd hfs
-      have hopt := fdOpt_drop _ i fd hfd
-      have hpb : ∀ o, (o ≠ optIndex (fieldsOf C n) i ∨ fdOpt ((fieldsOf C n).drop i) = false) →
-          (if fd.optional = true then p ||| 2 ^ optIdx (fieldsOf C n) i else p).testBit o = p.testBit o := by
-        intro o ho
-        by_cases hfo : fd.optional = true
-        · simp only [hfo, if_true, optIdx]
-          rcases ho with ho | ho
-          · exact or_two_pow_testBit p _ o ho
-          · rw [hopt, hfo] at ho; simp at ho
-        · simp [hfo]
-      have hset : (structRecv m i .direct).1.testBit i = true := structRecv_set m i .direct (by simp)
-      split at h
-      · simp at h
-      · by_cases hsh : C.canBeShared v = true
-        · -- a value that can be shared
-          simp only [hsh, if_true] at h
-          split at h
-          · simp only [Except.ok.injEq, Prod.mk.injEq] at h
-            obtain ⟨rfl, rfl⟩ := h
-            exact pres_struct_mark C n m p _ fr fs i cur v hfs hnd hpb
-              (fun _ => anySnd_dict C v (isDictNode_of_canBeShared C v hsh))
-          · simp only [Except.ok.injEq, Prod.mk.injEq] at h
-            obtain ⟨rfl, rfl⟩ := h
-            exact Pres.refl C _ _
-        · -- an owned value: copied into the (unshared) current one
-          simp only [hsh, if_false, Bool.false_eq_true] at h
-          by_cases hcs : C.canBeShared cur = true
-          · simp only [hcs, if_true, structRecv_again _ i _ hset, join_no_no] at h
-            split at h
-            · simp at h
-            · rename_i hdict
-              simp only [Except.ok.injEq, Prod.mk.injEq] at h
-              obtain ⟨rfl, rfl⟩ := h
-              exact pres_struct_mark C n m p _ fr fs i cur _ hfs hnd hpb
-                (fun _ => anySnd_dict C _ (by simpa using hdict))
-          · simp only [hcs, if_false, Bool.false_eq_true, structRecv_again _ i _ hset, join_no_no] at h
-            split at h
-            · simp at h
-            · rename_i hdict
-              simp only [Except.ok.injEq, Prod.mk.injEq] at h
-              obtain ⟨rfl, rfl⟩ := h
-              exact pres_struct_mark C n m p _ fr fs i cur _ hfs hnd hpb
-                (fun _ => anySnd_dict C _ (by simpa using hdict))
-    · simp at h
-  | _ => simp [applyOp] at h
-
 /-! ## oneof -/
 
-theorem sndAlt_anySnd (C : Ctx) : ∀ (i : Nat) (as : List AS) (x : AS) (R : Option St), as[i]? = some x → AnySnd C x →
-    SndAlt C i as R
+theorem sndAlt_anySnd (C : Ctx) (ℓ : Bool) : ∀ (i : Nat) (as : List AS) (x : AS) (R : Option St), as[i]? = some x → AnySnd C x →
+    SndAltG C ℓ i as R
   | _, [], _, _, h, _ => by simp at h
   | 0, a :: as, x, R, h, hx => by
     simp only [List.getElem?_cons_zero, Option.some.injEq] at h
     subst h
-    simp only [SndAlt]
-    exact hx R
+    simp only [SndAltG]
+    exact hx ℓ R
   | i + 1, a :: as, x, R, h, hx => by
     simp only [List.getElem?_cons_succ] at h
-    simp only [SndAlt]
-    exact sndAlt_anySnd C i as x R h hx
+    simp only [SndAltG]
+    exact sndAlt_anySnd C ℓ i as x R h hx
 
 theorem pres_direct (C : Ctx) (a a' : AS) (hk : isPrimAS a' = isPrimAS a) (h : AnySnd C a') : Pres C a a' .direct :=
-  ⟨fun R _ => h R, fun _ hno => by simp at hno, hk⟩
+  ⟨fun ℓ R _ => h ℓ R, fun _ hno => by simp at hno, hk⟩
 
 theorem anySnd_oneof (C : Ctx) (n : String) (k : Nat) (as : List AS) (x : AS) (h : as[k - 1]? = some x)
     (hx : AnySnd C x) : AnySnd C (.oneof n k as) := by
-  intro R
-  simp only [Snd]
-  exact Or.inr (sndAlt_anySnd C (k - 1) as x _ h hx)
+  intro ℓ R
+  simp only [SndG]
+  exact Or.inr (sndAlt_anySnd C ℓ (k - 1) as x _ h hx)
 
 theorem getElem?_set_self {α} (l : List α) (i : Nat) (c x : α) (h : l[i]? = some c) : (l.set i x)[i]? = some x := by
   rw [List.getElem?_set]
@@ -487,7 +489,7 @@ theorem setType_pres (C : Ctx) (k : Nat) (w w' : AS) (u : Up)
     · split at h
       · simp only [Except.ok.injEq, Prod.mk.injEq] at h
         obtain ⟨rfl, rfl⟩ := h
-        exact pres_direct C _ _ rfl (fun R => by simp [Snd])
+        exact pres_direct C _ _ rfl (fun ℓ R => by simp [SndG])
       · split at h
         · rename_i fd cur hfd hcur
           split at h
@@ -530,15 +532,15 @@ theorem setAlt_pres (C : Ctx) (k : Nat) (v : St) (w w' : AS) (u : Up)
 /-! ## array calls -/
 
 theorem anySnd_arr (C : Ctx) (e : Ty) (es hid : List AS) (h : ∀ x ∈ es, AnySnd C x) : AnySnd C (.arr e es hid) := by
-  intro R
-  simp only [Snd]
-  exact sndElems_all C es _ h
+  intro ℓ R
+  simp only [SndG]
+  exact sndElems_all C ℓ es _ h
 
 theorem pres_arr_append (C : Ctx) (e : Ty) (es hid hid' : List AS) (x : AS) (u : Up) (hu : u ≠ .no) (hx : AnySnd C x) :
     Pres C (.arr e es hid) (.arr e (es ++ [x]) hid') u := by
-  refine ⟨fun R h => ?_, fun _ hno => absurd hno hu, rfl⟩
-  simp only [Snd] at h ⊢
-  exact sndElems_append C es [x] _ h (by simpa using hx)
+  refine ⟨fun ℓ R h => ?_, fun _ hno => absurd hno hu, rfl⟩
+  simp only [SndG] at h ⊢
+  exact sndElems_append C ℓ es [x] _ h (by simpa using hx)
 
 theorem join_direct_ne (u : Up) : Up.direct.join u ≠ .no := by cases u <;> simp [Up.join]
 
@@ -578,7 +580,7 @@ theorem appendObj_pres (C : Ctx) (v : AS) (w w' : AS) (u : Up)
       · rename_i hsh
         simp only [Except.ok.injEq, Prod.mk.injEq] at h
         obtain ⟨rfl, rfl⟩ := h
-        exact pres_arr_append C e es hid _ _ _ (by simp) (anySnd_dict C v (isDictNode_of_canBeShared C v hsh))
+        exact pres_arr_append C e es hid _ _ _ (by simp) (anySnd_shared C v hsh)
       · simp only [Except.ok.injEq, Prod.mk.injEq] at h
         obtain ⟨rfl, rfl⟩ := h
         exact pres_arr_append C e es hid _ _ _ (join_direct_ne _) (anySnd_setModRec C _)
@@ -652,10 +654,10 @@ theorem appendKV_pres (C : Ctx) (x y : St) (w w' : AS) (u : Up)
   | mmap n ps hid k v ml =>
     simp only [applyOp, Except.ok.injEq, Prod.mk.injEq] at h
     obtain ⟨rfl, rfl⟩ := h
-    refine ⟨fun R h => ?_, fun _ hno => by simp at hno, rfl⟩
-    have hp := sndPairs_of_snd_mmap C n ps hid k v ml R h
-    simp only [Snd]
-    refine Or.inr (Or.inl ⟨Or.inl trivial, sndPairs_append C ps _ _ hp ?_⟩)
+    refine ⟨fun ℓ R h => ?_, fun _ hno => by simp at hno, rfl⟩
+    have hp := sndPairs_of_snd_mmap C ℓ n ps hid k v ml R h
+    simp only [SndG]
+    refine Or.inr (Or.inl ⟨Or.inr (Or.inl trivial), sndPairs_append C ℓ ps _ _ hp ?_⟩)
     intro q hq
     simp only [List.mem_singleton] at hq
     subst hq
